@@ -870,7 +870,7 @@ def majority_setup(eng):
     eng.spec_env['READS'] = [r1, None, r2]
 
     def dedup(e, f, a, k, n):
-        e.ghost['dedup_args'] = (list(a[1:]), dict(k))
+        e.ghost['dedup_args'] = (list(a)[-2:], dict(k))
         return list(e.spec_env['READS'])
     eng.loader.call_hooks[Q + 'get_dedup_reads'] = dedup
     eng.loader.call_hooks[Q + 'write_tags_to_psuedoreads'] = lambda e, f, a, k, n: e.ghost.__setitem__('tagged', list(a[-1]))
